@@ -264,13 +264,24 @@ def _patch_obj(
     #
     # We'll fix these "sparse arrays" after the patch has been applied.
     for part in parts[:-1]:
-        if part not in _obj:
+        if not _has(_obj, part):
             _obj[part] = {}  # type: ignore
         _obj = _obj[part]
 
     # Insert a copy. A later selection below this one is patched into what we
     # insert here, and that must not be the source document.
     _obj[parts[-1]] = copy.deepcopy(value)  # type: ignore
+
+
+def _has(obj: Any, part: Union[int, str]) -> bool:
+    """Return `True` if there is something at _part_ in _obj_.
+
+    _obj_ is one of our dictionaries, or (a copy of) a selected array or object
+    that a later selection reaches into.
+    """
+    if isinstance(obj, Mapping):
+        return part in obj
+    return isinstance(part, int) and -len(obj) <= part < len(obj)
 
 
 def _fix_sparse_arrays(obj: Any) -> object:
